@@ -51,6 +51,9 @@ pub enum St {
     /// query: a value whose text, after the one round of URL decoding the wire format has, still
     /// reads like an escape (`%2531` carries the text `%31`): a string, and nothing else
     EscapedEscape,
+    /// query collections: two values of the argument with every other pair of the query between
+    /// them (`k=v&other=..&k=v`): pairs of one key need not be neighbours
+    Interleaved,
 }
 
 #[derive(Clone)]
@@ -246,6 +249,13 @@ pub fn endpoints() -> Vec<EndpointD> {
                 arg(5, Query("rs"), "realSafe", "string", true, true, true),
             ],
         },
+        EndpointD {
+            name: "safeList",
+            method: Method::GET,
+            segments: vec!["u", "safelist"],
+            handler: "safe_list",
+            args: vec![arg(0, Query("tag"), "safeTags", "string", true, false, false), arg(1, Query("secret"), "secretWord", "string", false, true, true), arg(2, Query("id"), "safeIds", "string", true, false, false)],
+        },
         EndpointD { name: "oneQuery", method: Method::GET, segments: vec!["u", "one"], handler: "one_query", args: vec![arg(0, Query("limit"), "pageLimit", "integer", false, false, true)] },
         EndpointD { name: "oneQueryRequired", method: Method::GET, segments: vec!["u", "onereq"], handler: "one_query_required", args: vec![arg(0, Query("id"), "theId", "integer", false, true, true)] },
         EndpointD {
@@ -410,6 +420,7 @@ pub fn states_of(a: &ArgD) -> Vec<St> {
             v.push(St::EscapedEscape);
             if !a.single {
                 v.push(St::EmptyAmongValues);
+                v.push(St::Interleaved);
             }
         }
         Kind::Header(_) => {
@@ -436,7 +447,7 @@ pub fn states_of(a: &ArgD) -> Vec<St> {
 /// is this argument undecodable in this state?
 pub fn corrupts(a: &ArgD, s: St) -> bool {
     match s {
-        St::Valid | St::EncodedKeyValid => false,
+        St::Valid | St::EncodedKeyValid | St::Interleaved => false,
         St::Absent => a.required,
         // the empty text is a string (and nothing else)
         St::EmptyText | St::BareKey | St::EmptyAmongValues | St::EscapedEscape => a.typed,
@@ -477,6 +488,7 @@ pub fn build(e: &EndpointD, states: &[St]) -> Built {
         }
     }
     let mut query: Vec<String> = vec![];
+    let mut query_tail: Vec<String> = vec![];
     let mut headers = HeaderMap::new();
     let mut body = vec![];
     for (a, s) in e.args.iter().zip(states) {
@@ -498,6 +510,10 @@ pub fn build(e: &EndpointD, states: &[St]) -> Built {
                 St::EscapedEscape => query.push(format!("{}=%25{:02X}{}", k, a.valid.as_bytes()[0], &a.valid[1..])),
                 St::EmptyText => query.push(format!("{}=", k)),
                 St::BareKey => query.push(k.to_string()),
+                St::Interleaved => {
+                    query.insert(0, format!("{}={}", k, a.valid));
+                    query_tail.push(format!("{}={}", k, a.valid));
+                }
                 St::EmptyAmongValues => {
                     query.push(format!("{}={}", k, a.valid));
                     query.push(format!("{}=", k));
@@ -567,6 +583,7 @@ pub fn build(e: &EndpointD, states: &[St]) -> Built {
             },
         }
     }
+    query.extend(query_tail);
     let uri = if query.is_empty() { path } else { format!("{}?{}", path, query.join("&")) };
     Built { method: e.method.clone(), uri: uri.parse().expect("harness builds valid URIs"), headers, body }
 }
